@@ -93,10 +93,19 @@ class NaryLoop(LoopSpec):
     def __init__(self, contract):
         self.c = contract
 
+    def _name(self, env):
+        """the long clause under construction, identified by its ROLE (the one python list among the locals before the loop), not
+        by the name of the local (seeded/harmless/m06 renames it)"""
+        if getattr(self, 'clause_name', None) is None:
+            from ..pyvc.values import VList
+            cands = [n for n, v in env.items() if isinstance(v, VList)]
+            self.clause_name = cands[0] if len(cands) == 1 else 'common'
+        return self.clause_name
+
     def havoc(self, it, env):
         ctx = it.ctx
         st = self.c.st
-        env['common'] = ClauseView(st['val'], ctx.fresh(z3.BoolSort(), 'common'))
+        env[self._name(env)] = ClauseView(st['val'], ctx.fresh(z3.BoolSort(), 'common'))
         st['cnf'].sat = ctx.fresh(z3.BoolSort(), 'sat')
         st['cnf'].n = ctx.fresh(z3.IntSort(), 'ncl')
 
@@ -104,7 +113,7 @@ class NaryLoop(LoopSpec):
         st = self.c.st
         val, top = st['val'], st['val'].lit(it, Sym(st['top']))
         ALL, ANY = st['ALL'](k), st['ANY'](k)
-        common = env['common']
+        common = env[self._name(env)]
         ctru = st['cnf'].clause_truth(it, common)
         t = self.c.t
         if t == 'AND':
